@@ -899,12 +899,24 @@ mod response {
                 Self::Http1(s) => {
                     {
                         let mut writer = s.lock().await;
+                        // Nothing tells the client where the body ends: the end of the
+                        // connection has to (see `handle_connection`).
+                        let close_delimited = !(response.headers().contains_key("content-length")
+                            || response.headers().contains_key("transfer-encoding")
+                            || response.status().is_informational()
+                            || response.status() == StatusCode::NO_CONTENT
+                            || response.status() == StatusCode::NOT_MODIFIED);
                         match response
                             .headers()
                             .get("connection")
                             .map(HeaderValue::to_str)
                             .and_then(Result::ok)
                         {
+                            _ if close_delimited => {
+                                response
+                                    .headers_mut()
+                                    .insert("connection", HeaderValue::from_static("close"));
+                            }
                             Some("close") | None => {
                                 response
                                     .headers_mut()
